@@ -773,6 +773,28 @@ class Gen(object):
             if f in ('min', 'max') and len(n.args) == 2:
                 a, b = unify(ev(n.args[0]), ev(n.args[1]))
                 return z3.If(a <= b, a, b) if f == 'min' else z3.If(a >= b, a, b)
+            if f == 'sum' and len(n.args) == 1:
+                a0 = n.args[0]
+                # sum([X[j] for j in range(lo, hi)])  ==  the ghost sum(X, lo, hi)   (Python's left fold = unfolding from the top)
+                if isinstance(a0, ast.ListComp) and len(a0.generators) == 1 and not a0.generators[0].ifs \
+                        and isinstance(a0.generators[0].target, ast.Name) and isinstance(a0.elt, ast.Subscript) \
+                        and isinstance(a0.elt.slice, ast.Name) and a0.elt.slice.id == a0.generators[0].target.id \
+                        and isinstance(a0.generators[0].iter, ast.Call) and isinstance(a0.generators[0].iter.func, ast.Name) \
+                        and a0.generators[0].iter.func.id == 'range' and len(a0.generators[0].iter.args) in (1, 2) \
+                        and a0.generators[0].target.id not in {x.id for x in ast.walk(a0.elt.value) if isinstance(x, ast.Name)}:
+                    X = ev(a0.elt.value)
+                    rng = [ev(x) for x in a0.generators[0].iter.args]
+                    lo, hi = (z3.IntVal(0), rng[0]) if len(rng) == 1 else (rng[0], rng[1])
+                    if isinstance(X, SList) and not X.nested():
+                        jv = z3.Int('j?')
+                        self.oblige('index-in-range@%d' % n.lineno, path,
+                                    ('forall', [jv], ('implies', atom(z3.And(lo <= jv, jv < hi)), atom(z3.And(jv >= 0, jv < X.ln)))),
+                                    'safety', n.lineno)
+                        return self.sumfn(X)(X.arr, lo, z3.If(hi >= lo, hi, lo))
+                l = ev(a0)
+                if isinstance(l, SList) and not l.nested():
+                    return self.sumfn(l)(l.arr, z3.IntVal(0), l.ln)
+                raise Unsupported('sum() of this argument')
             if f == 'deepcopy':
                 return ev(n.args[0])          # A4: deepcopy of plain lists is the identity on values
             if f == 'tuple' or f == 'list':
